@@ -118,8 +118,8 @@ def getHeader (s : State) (t : PDUType) (len : Nat) : State × Header :=
 
 def sendPayload (s : State) (p : Payload) : State :=
   let t : PDUType := match p with | .fileData _ _ | .fileDataSeg _ _ _ _ => .FileData | _ => .FileDirective
-  let (s, h) := getHeader s t (p.len s.cfg.fss)
-  { s with sent := some { header := h, payload := p } }
+  let r := getHeader s t (p.len s.cfg.fss)
+  { r.1 with sent := some { header := r.2, payload := p } }
 
 def isFileTransfer (s : State) : Bool := !s.md.srcName.isEmpty
 
@@ -145,8 +145,8 @@ def getChecksum (s : State) : State × Nat :=
 /-- `prepare_eof` -/
 def prepareEof (s : State) (fault : Option VarId) (now : Nat) : State :=
   let s := { s with timer := { s.timer with ack := ((s.timer.ack.reset now).pause now) } }
-  let (s, ck) := getChecksum s
-  { s with eof := some ({ cond := s.condition, checksum := ck, fileSize := s.md.fileSize, fault }, true) }
+  let r := getChecksum s
+  { r.1 with eof := some ({ cond := r.1.condition, checksum := r.2, fileSize := r.1.md.fileSize, fault }, true) }
 
 def setEofFlag (s : State) (f : Bool) : State :=
   match s.eof with
@@ -282,32 +282,29 @@ def sendPdu (s : State) (now : Nat) : State :=
     | .Cancelled => sendEof s now
     | .Finished => sendAck s now
 
+/-- the positive-ACK part of `handle_timeout` -/
+def handleAckTimer (s : State) (now : Nat) (cancelled : Bool) : State :=
+  let o := s.timer.ack.timeoutOccurred now
+  let s := { s with timer := { s.timer with ack := o.1 } }
+  if o.2 then
+    let r := s.timer.ack.limitReached now
+    let s := { s with timer := { s.timer with ack := r.1 } }
+    if r.2 then (if cancelled then abandon s now else handleFault s .PositiveLimitReached now)
+    else setEofFlag s true
+  else s
+
+/-- the inactivity part of `handle_timeout` -/
+def handleInactivity (s : State) (now : Nat) (cancelled : Bool) : State :=
+  let r := s.timer.inactivity.limitReached now
+  let s := { s with timer := { s.timer with inactivity := r.1 } }
+  if r.2 then (if cancelled then abandon s now else handleFault s .InactivityDetected now) else s
+
 /-- `handle_timeout` -/
 def handleTimeout (s : State) (now : Nat) : State :=
   if s.state == .Suspended then s else
   match s.sendState with
-  | .SendEof =>
-    let (c, lim) := s.timer.inactivity.limitReached now
-    let s := { s with timer := { s.timer with inactivity := c } }
-    let s := if lim then handleFault s .InactivityDetected now else s
-    let (c, occ) := s.timer.ack.timeoutOccurred now
-    let s := { s with timer := { s.timer with ack := c } }
-    if occ then
-      let (c, lim) := s.timer.ack.limitReached now
-      let s := { s with timer := { s.timer with ack := c } }
-      if lim then handleFault s .PositiveLimitReached now else setEofFlag s true
-    else s
-  | .Cancelled =>
-    let (c, lim) := s.timer.inactivity.limitReached now
-    let s := { s with timer := { s.timer with inactivity := c } }
-    let s := if lim then abandon s now else s
-    let (c, occ) := s.timer.ack.timeoutOccurred now
-    let s := { s with timer := { s.timer with ack := c } }
-    if occ then
-      let (c, lim) := s.timer.ack.limitReached now
-      let s := { s with timer := { s.timer with ack := c } }
-      if lim then abandon s now else setEofFlag s true
-    else s
+  | .SendEof => handleAckTimer (handleInactivity s now false) now false
+  | .Cancelled => handleAckTimer (handleInactivity s now true) now true
   | _ => s
 
 /-- the splitting of NAK requests into segment-size pieces clamped to the file (`process_pdu`) -/
